@@ -6,9 +6,9 @@ TB = "Trusted base: vf/sim.py (datasheet-derived nRF24L01+ model incl. Enhanced 
 CHECKS = {
  "C20": ("model_checking", "6 C20 / 9", "the C01 enumeration, C02 loss-tree DFS, C03 setter BFS, C08 pipe-0 BFS and C10 accessor BFS re-instantiated with rf24_lite.RF24 (through adafruit SPIDevice on a simulated busio bus) as transmitter, receiver and both, plus exhaustive enumeration of load_ack(len 0..33, pipe -1..6)",
          "The lite driver is held to the clauses C20 lists, within its documented reductions; clauses of the re-used harnesses that C20 does not extend to the lite driver are filtered by name and listed in the evidence."),
- "C01": ("model_checking", "6 C01 / 9", "exhaustive enumeration (E-ENUM) of configurations x payload lengths x buffer types x call forms, all short payload lists, per-pipe static length vectors and write() bursts, executing the real RF24 objects on two simulated radios",
+ "C01": ("model_checking", "6 C01 / 9", "exhaustive enumeration (E-ENUM) of configurations x payload lengths x buffer types x call forms, all short payload lists, per-pipe static length vectors, write() bursts, rejected payloads behind pending RX / failed TX payloads, transmitter / receiver pre-histories and bystander objects of the same class, executing the real RF24 objects on two simulated radios",
          "Every (length mode, payload length 0..40, buffer type, call form) and every pipe/width/rate/CRC/ack/channel/front combination at 3 lengths is executed on the real driver pair and compared with the datasheet-derived expectation; all payload lists up to depth 3; bursts of 1..5 write_only writes."),
- "C02": ("fault_enumeration", "6 C02 / 9", "stateless choice-replay DFS over loss decisions (packet lost / ACK lost / delivered per PTX transmission): complete trees when a call history allows <= 8 (thorough 10) transmissions, loss-kind switches bounded to 2 (thorough 3) otherwise, over a pruned grid of arc x ard x force_retry x mode x send_only x peer and all call histories of <= 2 (thorough 3) send()/send(list)/resend() calls",
+ "C02": ("fault_enumeration", "6 C02 / 9", "stateless choice-replay DFS over loss decisions (packet lost / ACK lost / delivered per PTX transmission): complete trees when a call history allows <= 8 (thorough 10) transmissions, loss-kind switches bounded to 2 (thorough 3) otherwise, over a pruned grid of arc x ard x force_retry x mode x send_only x peer and all call histories of <= 2 (thorough 3) send()/send(list)/resend() calls; plus send() / resend() behind 1..3 payloads loaded with write(write_only=True)",
          "Every execution is judged against the simulated radios' ground truth: return values (incl. ACK payload bytes, one per list element), no transmission in flight at return, attempts made vs allowed, virtual-time bound from the retry configuration, and exactly the current call's payloads on the air between returns."),
  "C03": ("model_checking", "6 C03 / 9", "explicit-state BFS: every call sequence of length <= 2 (thorough 3) over a 227-call alphabet (all setters in all input forms incl. out-of-domain, all getters) on plus and non-plus radios, plus deduplicated BFS to depth 4/5 inside each register-sharing group; oracle = independent datasheet/documentation register model",
          "After every call the whole simulated register file must equal the reference prediction (encoding and foreign fields), no reserved/out-of-range value may have been written, every getter must return the value in effect, and leaving/re-entering the `with` block must not change any register (cache == radio)."),
@@ -22,13 +22,13 @@ CHECKS = {
          "All event sequences to depth 8 (thorough 11) over up to 3 senders with coinciding or different frame ids; every frame handed to the application must be byte-for-byte one complete sent message, at most once. One open known finding (duplicate stream re-delivered after dequeue)."),
  "C07": ("model_checking", "6 C07 / 9", "explicit-state BFS (depth 2 quick / 3 thorough) over public network/mesh calls x environment answers on deep-copied simulated worlds; post-condition read from the simulated hardware",
          "From 10 initial node configurations every sequence of API calls / injected frames x (next hop acks or not, NETWORK_ACK / lookup reply injected or not) up to the depth bound is executed on the real node object; after every call the radio must be powered, in RX, CE high, all six pipes on the node's reference addresses, EN_AA=0x3E, DYNPD=0x3F."),
- "C08": ("model_checking", "6 C08 / 9", "explicit-state BFS with canonical-state dedup over open/close pipe, open_tx_pipe, auto-ack and listen calls per address width; register oracle plus behavioural probes (ghost sender / ghost listener) on deep copies; CE/SPI log",
+ "C08": ("model_checking", "6 C08 / 9", "explicit-state BFS with canonical-state dedup over open/close pipe (addresses of full width, inside the TX address, and shorter than the width), open_tx_pipe, auto-ack, power and listen calls and a bystander object of the class, per address width; register oracle plus behavioural probes (ghost sender / ghost listener) on deep copies; CE/SPI log",
          "All call sequences to depth 6 (thorough: until the state space closes) are executed on the real driver; RX clause at every listen=True, TX clause after every open_tx_pipe in TX mode, CE clause from the pin log."),
  "C10": ("model_checking", "6 C10 / 9", "explicit-state BFS with duplicate-state elimination over traffic events (ghost PTX/PRX: deliveries to pipes 0/1/5, ACKs, ACK payloads, failures) interleaved with every accessor call, depth 5 (thorough 7), in dynamic / static / mixed payload modes from empty, full and post-traffic FIFO states",
          "After every operation the radio must have changed exactly as documented (read-only accessors change nothing), returned values must equal the simulated FIFO / STATUS / OBSERVE_TX truth, the cached status must equal the last shifted-out STATUS, and the IRQ line must be asserted iff an enabled event is latched."),
  "C11": ("model_checking", "6 C11 / 9", "exhaustive enumeration of the header field domains (all 12-bit addresses, all ids, all type x reserved pairs) against an explicit little-endian reference codec, and of every message length 0..144 written by a real node to an acknowledging ghost, compared frame by frame with a reference fragment encoder / TMRh20-style reassembler",
          "pack/unpack byte layout, refusal of short buffers, on-air frame sequence, frame-id sharing, counters, last-fragment convention and restoration of the caller's header are checked on the complete enumerated domain."),
- "C12": ("model_checking", "6 C12 / 9", "explicit-state BFS vs a reference bounded duplicate-free FIFO over enqueue (fresh/duplicate/alternative/mutated/reused frames), dequeue, peek, len, max_queue_size and fragmentation toggles on the real queue classes and through a real node",
+ "C12": ("model_checking", "6 C12 / 9", "explicit-state BFS vs a reference bounded duplicate-free FIFO over enqueue (fresh/duplicate/alternative/string-typed/mutated/reused frames), dequeue, peek, len, max_queue_size and fragmentation toggles on the real queue classes and through a real node",
          "All operation sequences to depth 7 (thorough 9); return values and complete queue contents compared with the reference after every step."),
  "C13": ("fault_enumeration", "6 C13 / 9", "stateless choice-replay DFS: every set of up to 3 / 2 (thorough 4 / 3) lost frame hops on routes of 1..8 hops, lost hardware ACKs as a third fault kind, all 256 types on a 2-hop route, cross traffic through a waiting origin (also with multicasting off), one header object used twice, in a deterministic multi-node discrete-event world",
          "Every failure point of every frame hop (message and NETWORK_ACK relays) is enumerated; NETWORK_ACK origination count/originator/addressee, how often it was loaded into the originator's radio (PID ground truth) against the number of deliveries, write()'s return value against the ground-truth arrival time, and the blocking bound are checked on every execution."),
